@@ -247,7 +247,7 @@ def exec (regs : List RVal) (frames : List Frame) (c : Cmd) : M (List RVal × Li
     let s ← get
     match s.lookup c with
     | some (.input name pn doc _) => do put c (.input name pn doc ty); one arr
-    | _ => throw .unsupported
+    | _ => throw .T                                    -- only an input record can be declared an array (repaired constructor)
   | .lit base v =>
     match base, v with
     | .bool, .bool _ | .int, .int _ | .uint, .int _ => do one (← mkLiteral base v)
